@@ -1,3 +1,4 @@
+import NrDaemon.Lemmas.HarvestReqs
 import NrDaemon.Props.Reviewed
 import NrDaemon.Gen.Skeleton
 import NrDaemon.Model.Proc
@@ -209,3 +210,25 @@ theorem C01_harvest_by_type_source_tied : Gen.Skeleton.harvestByType = Reviewed.
 
 /-- **C01 (tie).**  `eventsSplit`: a split payload is two independent reservoirs that partition the events. -/
 theorem C01_split_source_tied : Gen.Skeleton.eventsSplit = Reviewed.eventsSplit := rfl
+
+
+/-! ## What a harvest leaves behind (processor model): sent means detached -/
+
+/-- **C01 (combined harvest: nothing stays behind).**  After the all-at-once harvest the run holds a completely fresh harvest
+of the negotiated capacities; every container that was handed to a request (`C04_request_payload`) is gone from it, so the
+live harvest can never send it a second time. -/
+theorem C01_combined_harvest_installs_fresh (s : PState) (runId : String) (run : RunM) (app : AppM) (cfg : RunCfg) (a : HArgs) :
+    getRun (harvestAllPart s runId run app cfg a).1 runId = some { run with h := HarvestM.new cfg } :=
+  harvestAllPart_installs_fresh s runId run app cfg a
+
+/-- **C01 (per-category harvest: what is sent is replaced in the same step, the rest is untouched).**  For every tick mask:
+the reservoir of each event category whose bit is set (and whose limit is not zero) is a fresh one of the negotiated
+capacity afterwards, and a category that is not harvested keeps exactly what it held - whatever the other branches did. -/
+theorem C01_by_type_harvest_swaps_exactly (s : PState) (runId : String) (run : RunM) (app : AppM) (cfg : RunCfg) (mask : Nat) (a : HArgs) :
+    ∃ h', getRun (harvestTypesPart s runId run app cfg mask a).1 runId = some { run with h := h' } ∧
+      h'.custom = (if (hasBit mask 32 && cfg.limCustom != 0) then Res.new cfg.limCustom else run.h.custom) ∧
+      h'.errEv = (if (hasBit mask 64 && cfg.limErr != 0) then Res.new cfg.limErr else run.h.errEv) ∧
+      h'.txn = (if (hasBit mask 16 && cfg.limTxn != 0) then Res.new cfg.limTxn else run.h.txn) ∧
+      h'.span = (if (hasBit mask 128 && cfg.limSpan != 0) then Res.new cfg.limSpan else run.h.span) ∧
+      h'.log = (if (hasBit mask 256 && cfg.limLog != 0) then Res.new cfg.limLog else run.h.log) :=
+  harvestTypesPart_reservoirs s runId run app cfg mask a
